@@ -57,8 +57,20 @@ def make_spec(seed, rng, k=None, mode=None, N=None, v=None):
            'j': N if N is not None else rng.randint(1, nk + 1)}
     if rng.random() < 0.15:
         opt['repeat'] = 2
-    if rng.random() < 0.15:
+    if rng.random() < 0.2:
         opt['shuffle_seed'] = rng.randint(0, 99)
+        # order-dependent tests: b fails only when a ran before it in the same process, so a
+        # child that orders its layer differently than the sequential run changes outcomes
+        by_layer = {}
+        for d in disc:
+            if C.test_phases(d):
+                by_layer.setdefault(d['layer'], []).append(d)
+        for lay, ds in sorted(by_layer.items(), key=lambda kv: str(kv[0])):
+            if len(ds) >= 2:
+                for _ in range(rng.randint(1, 3)):
+                    a, b = rng.sample(ds, 2)
+                    plan.append(C.fault_entry(b, 'body', {'a': 'raise', 'exc': 'AssertionError',
+                                                          'after': a['tid']}))
     sched = {'prng': seed}
     if mode is None:
         mode = rng.choice(['random', 'random', 'order', 'barrier', 'stall'])
